@@ -143,7 +143,7 @@ def main():
         }],
         "checks": checks,
         "not_applicable": na,
-        "notes": "Static analysis only; every check loads /repo's working tree on every run. Known findings: /verif/KNOWN_FINDINGS.txt. fix: commits in /repo are listed there as fixed: lines.",
+        "notes": "Static analysis only; every check loads /repo's working tree on every run. Known findings: /verif/KNOWN_FINDINGS.txt. fix: commits in /repo are listed there as fixed: lines. Measured on independently written changes (DESIGN 7.3/7.4): 145 of 152 seeded defects are reported; 256 of 260 behaviour-preserving restructurings are silent, 4 raise a documented open false alarm (refactors/README.md, round 6).",
     }
     json.dump(m, open(os.path.join(HERE, "MANIFEST.json"), "w"), indent=1)
     print("claimed:", " ".join(sorted(CLAIMED)), "| not applicable:", " ".join(x["property_id"] for x in na))
